@@ -2,11 +2,12 @@
 //! one JSON object per case ({"in": ..., "out": ...}) on stdout.
 mod rng;
 mod detect;
-mod matchers;
+pub mod matchers;
 mod semverx;
 mod pypi;
 mod resolvers;
 mod cacheseq;
+mod verdict;
 
 use std::collections::HashMap;
 
@@ -51,6 +52,7 @@ fn main() {
         "pypi" => pypi::run(&args),
         "resolvers" => resolvers::run(&args),
         "cache-seq" => cacheseq::run(&args),
+        "verdict" => verdict::run(&args),
         other => {
             eprintln!("unknown stream {other}");
             std::process::exit(2);
